@@ -36,25 +36,83 @@ Proof.
   destruct el; [|discriminate]. split; [reflexivity|f_equal; lia].
 Qed.
 
+Definition shape1b (l : list pev1) : bool :=
+  match l with
+  | [] | [PForm1] | [PForm1; PRev1 0 _] | [PRev1 _ _] | [PSucc1] | [PFail1] => true
+  | _ => false
+  end.
+Definition shape2b (l : list pev2) : bool :=
+  match l with
+  | [] | [PForm2 _] | [PRev2 _ _] => true
+  | [e] => is_res2 e
+  | [PRev2 _ _; e] => is_res2 e
+  | _ => false
+  end.
+Lemma shape1b_sound l : shape1b l = true -> shape1 l.
+Proof.
+  destruct l as [|[|o n| |] [|[|o2 n2| |] [|e3 t3]]]; cbn; try discriminate; auto.
+  all: destruct o2; cbn; try discriminate; auto.
+Qed.
+Lemma shape2b_sound l : shape2b l = true -> shape2 l.
+Proof. destruct l as [|[r|o n| | |] [|[r2|o2 n2| | |] [|e3 t3]]]; cbn; try discriminate; auto. Qed.
+
+Fixpoint valid_evs1b (h : N) (l : list pev1) (x : ch1) : bool :=
+  match l with [] => true | e :: t => valid1b e x && valid_evs1b h t (spec_ev1 h e x) end.
+Fixpoint valid_evs2b (i : idx) (l : list pev2) (x : ch2) : bool :=
+  match l with [] => true | e :: t => valid2b e x && valid_evs2b i t (spec_ev2 i e x) end.
+Lemma valid_evs1b_sound h l : forall x, valid_evs1b h l x = true -> valid_evs1 h l x.
+Proof.
+  induction l as [|e t IH]; intros x; cbn; [auto|]. rewrite Bool.andb_true_iff. intros [A B].
+  split; [apply valid1b_sound; exact A|apply IH; exact B].
+Qed.
+Lemma valid_evs2b_sound i l : forall x, valid_evs2b i l x = true -> valid_evs2 i l x.
+Proof.
+  induction l as [|e t IH]; intros x; cbn; [auto|]. rewrite Bool.andb_true_iff. intros [A B].
+  split; [apply valid2b_sound; exact A|apply IH; exact B].
+Qed.
+
+(* a contract a block does not mention has no changes in it *)
+Lemma evl_absent {E} (l : list (N * E)) id :
+  ~ In id (map fst l) -> map snd (filter (fun p => fst p =? id) l) = [].
+Proof.
+  induction l as [|p t IH]; cbn; [reflexivity|]. intros H.
+  destruct (fst p =? id) eqn:Ep; [exfalso; apply H; left; lia|]. apply IH; tauto.
+Qed.
+
 Definition bvalidb (buffer : N) (n1 n2 : N -> option N) (K : list block) (b : block) : bool :=
-  nodupN (ids1_of b) && nodupN (ids2_of b)
-  && forallb (fun p => match n1 (fst p) with
-                       | Some ng => valid1b (snd p) (spec1 buffer ng (fst p) K) | None => false end) (evs1 b)
-  && forallb (fun p => match n2 (fst p) with
-                       | Some ng => valid2b (snd p) (spec2 buffer ng (fst p) K) | None => false end) (evs2 b).
+  forallb (fun id => shape1b (evl1_of id b) &&
+                     match n1 id with
+                     | Some ng => valid_evs1b (bheight b) (evl1_of id b) (spec1 buffer ng id K)
+                     | None => false
+                     end) (ids1_of b)
+  && forallb (fun id => shape2b (evl2_of id b) &&
+                        match n2 id with
+                        | Some ng => valid_evs2b (bidx b) (evl2_of id b) (spec2 buffer ng id K)
+                        | None => false
+                        end) (ids2_of b).
 
 Lemma bvalidb_sound buffer n1 n2 K b : bvalidb buffer n1 n2 K b = true -> bvalid buffer n1 n2 K b.
 Proof.
-  unfold bvalidb. rewrite !Bool.andb_true_iff. intros [[[A B] C] D].
-  split; [apply nodupN_sound; exact A|]. split; [apply nodupN_sound; exact B|]. split.
-  - intros id e E. unfold ev1_of in E. destruct (find _ (evs1 b)) as [p|] eqn:Ef; [|discriminate].
-    apply find_some in Ef. destruct Ef as [Hin Hk]. injection E as <-.
-    rewrite forallb_forall in C. specialize (C p Hin). assert (fst p = id) as <- by lia.
-    destruct (n1 (fst p)) as [ng|]; [|discriminate]. exists ng. split; [reflexivity|apply valid1b_sound; exact C].
-  - intros id e E. unfold ev2_of in E. destruct (find _ (evs2 b)) as [p|] eqn:Ef; [|discriminate].
-    apply find_some in Ef. destruct Ef as [Hin Hk]. injection E as <-.
-    rewrite forallb_forall in D. specialize (D p Hin). assert (fst p = id) as <- by lia.
-    destruct (n2 (fst p)) as [ng|]; [|discriminate]. exists ng. split; [reflexivity|apply valid2b_sound; exact D].
+  unfold bvalidb. rewrite Bool.andb_true_iff. intros [A B].
+  rewrite forallb_forall in A, B.
+  assert (A' : forall id, evl1_of id b <> [] -> In id (ids1_of b)).
+  { intros id H. destruct (in_dec N.eq_dec id (ids1_of b)) as [Hi|Hn]; [exact Hi|].
+    exfalso; apply H. apply evl_absent; exact Hn. }
+  assert (B' : forall id, evl2_of id b <> [] -> In id (ids2_of b)).
+  { intros id H. destruct (in_dec N.eq_dec id (ids2_of b)) as [Hi|Hn]; [exact Hi|].
+    exfalso; apply H. apply evl_absent; exact Hn. }
+  split; [|split].
+  - intros id. split.
+    + destruct (in_dec N.eq_dec id (ids1_of b)) as [Hi|Hn].
+      * specialize (A id Hi). apply Bool.andb_true_iff in A. apply shape1b_sound, A.
+      * unfold evl1_of. rewrite evl_absent by exact Hn. exact I.
+    + destruct (in_dec N.eq_dec id (ids2_of b)) as [Hi|Hn].
+      * specialize (B id Hi). apply Bool.andb_true_iff in B. apply shape2b_sound, B.
+      * unfold evl2_of. rewrite evl_absent by exact Hn. exact I.
+  - intros id H. specialize (A id (A' id H)). apply Bool.andb_true_iff in A. destruct A as [_ A].
+    destruct (n1 id) as [ng|]; [|discriminate]. exists ng. split; [reflexivity|apply valid_evs1b_sound; exact A].
+  - intros id H. specialize (B id (B' id H)). apply Bool.andb_true_iff in B. destruct B as [_ B].
+    destruct (n2 id) as [ng|]; [|discriminate]. exists ng. split; [reflexivity|apply valid_evs2b_sound; exact B].
 Qed.
 
 Fixpoint ext_okb (buffer : N) (n1 n2 : N -> option N) (K : list block) (apps : list block) : bool :=
